@@ -160,6 +160,26 @@ theorem C07_node_history_stable (pre post : List Op) (n v : Nat)
   rw [hx]
   exact key post hpost (exec pre) (inv_exec pre) hv
 
+/-- **Transaction bookkeeping never touches a version chain or a relationship log.**
+`begin`, `txn_write_node`, `txn_write_edge`, `commit`, `abort` and a version bump change the
+transaction table, the last-commit maps and `current_version` only. -/
+theorem C07_txn_bookkeeping_keeps_chains (s : State) (top : Txn.Op) (h : ∀ w, top ≠ .gc w) :
+    (step s (.txn top)).1.nodes = s.nodes ∧ (step s (.txn top)).1.edges = s.edges := by
+  cases top with
+  | gc w => exact absurd rfl (h w)
+  | _ => exact ⟨rfl, rfl⟩
+
+/-- **A commit freezes what was current.**  After any transaction operation (in particular a
+commit that raises the current version from `c` to `c+1`, whatever its write set holds), the
+read of every node at every version `v ≥ c` — so at the pre-commit version `c` itself — is the
+state that was current before the operation. -/
+theorem C07_commit_freezes_current (s : State) (hinv : Inv s) (top : Txn.Op) (h : ∀ w, top ≠ .gc w)
+    (n v : Nat) (hv : s.cur ≤ v) :
+    getNodeAt (step s (.txn top)).1 n v = getNode s n := by
+  rw [← C07_node_read_as_of s hinv n v hv]
+  unfold getNodeAt
+  rw [(C07_txn_bookkeeping_keeps_chains s top h).1]
+
 theorem ids_of_allNodes (nodes : Nat → List NodeV) (l : List Nat) :
     (l.filterMap (fun i => (nodes i).getLast?.map (fun x => (i, x.version)))).map (·.1)
       = l.filter (fun i => !(nodes i).isEmpty) := by
